@@ -17,9 +17,11 @@ import hashlib
 import io
 import os
 import shutil
+import signal
 import subprocess
 import sys
 import threading
+import time
 from collections.abc import Iterator, Sequence
 from dataclasses import dataclass, field
 from typing import Any
@@ -117,6 +119,79 @@ AUDIT = _Audit()
 
 
 # ---------------------------------------------------------------------------------------------
+# budgets: one real run, and a whole stream / search (a slow or non-terminating case is a result, never a hang)
+
+RUN_CPU_S = float(os.environ.get('VERIF_RUN_CPU_S', '') or 60.0)		# CPU time of the harness process per real run (a run takes ≈ 0.3–1 s): immune to machine load
+RUN_WALL_S = float(os.environ.get('VERIF_RUN_WALL_S', '') or 600.0)		# wall-clock safety net (a run stuck in I/O or sleep)
+BUDGET_HITS: dict[str, int] = {}		# how many real runs were cut by the budget (reported in the evidence notes)
+
+
+class RunBudgetExceeded(BaseException):
+	"""Raised by the interval timers inside a real run (BaseException: tranp's `except Exception` does not swallow it)."""
+
+
+class RunDoesNotEnd(Exception):
+	"""What a RunResult carries as `exc` when the run was cut by the budget (never raised)."""
+
+
+def _on_timer(_sig: int, _frm: Any) -> None:
+	raise RunBudgetExceeded()
+
+
+@contextlib.contextmanager
+def run_budget(cpu_s: float | None = None, wall_s: float | None = None) -> Iterator[None]:
+	"""`with run_budget():` — RunBudgetExceeded is raised in the main thread once the body used more than `cpu_s` of CPU time or
+	`wall_s` of wall time (a no-op outside the main thread)."""
+	if threading.current_thread() is not threading.main_thread() or not hasattr(signal, 'setitimer'):
+		yield
+		return
+	old_prof = signal.signal(signal.SIGPROF, _on_timer)
+	old_alrm = signal.signal(signal.SIGALRM, _on_timer)
+	signal.setitimer(signal.ITIMER_PROF, RUN_CPU_S if cpu_s is None else cpu_s)
+	signal.setitimer(signal.ITIMER_REAL, RUN_WALL_S if wall_s is None else wall_s)
+	try:
+		yield
+	finally:
+		signal.setitimer(signal.ITIMER_PROF, 0)
+		signal.setitimer(signal.ITIMER_REAL, 0)
+		signal.signal(signal.SIGPROF, old_prof)
+		signal.signal(signal.SIGALRM, old_alrm)
+
+
+def budget_hit(res: 'RunResult', where: str) -> None:
+	"""Marks `res` as a run that did not end within the budget."""
+	BUDGET_HITS[where] = BUDGET_HITS.get(where, 0) + 1
+	res.ok = False
+	res.error = 'RunDoesNotEnd'
+	res.message = f'the run did not end within {RUN_CPU_S:.0f} s of CPU time / {RUN_WALL_S:.0f} s of wall time (a run takes about 1 s)'
+	res.exc = RunDoesNotEnd(res.message)
+
+
+class Deadline:
+	"""Total wall deadline of a stream / search: once over, the remaining cases are skipped and COUNTED (evidence notes) — a
+	deadline never produces a finding and never a verdict."""
+
+	def __init__(self, name: str, seconds: float) -> None:
+		self.name = name
+		self.seconds = seconds
+		self.end = time.time() + seconds
+		self.skipped = 0
+
+	def over(self, n: int = 1) -> bool:
+		if time.time() >= self.end:
+			self.skipped += n
+			return True
+		return False
+
+	def note(self) -> str:
+		return f'{self.name}: wall deadline of {self.seconds:.0f} s reached, {self.skipped} generated case(s) skipped' if self.skipped else ''
+
+
+def budget_notes() -> list[str]:
+	return [f'{n} real run(s) cut by the per-run budget in {w}' for w, n in sorted(BUDGET_HITS.items())]
+
+
+# ---------------------------------------------------------------------------------------------
 
 
 @dataclass
@@ -181,6 +256,16 @@ class Project:
 		os.utime(path, ns=(ns, ns))
 		return t
 
+	def write_module_at(self, module: str, source: str, tick: int) -> None:
+		"""Like write_module, but the file gets the virtual mtime of an EARLIER tick (a restored backup, `cp -p`, an extracted
+		archive: content and mtime change, the new mtime is one that was in use before); the clock itself is not advanced."""
+		path = self.module_file(module)
+		os.makedirs(os.path.dirname(path), exist_ok=True)
+		with open(path, 'w', encoding='utf-8') as f:
+			f.write(source)
+		ns = int(CLOCK_BASE) * 1_000_000_000 + tick * 250_000_000
+		os.utime(path, ns=(ns, ns))
+
 	def set_grammar_copy(self, name: str) -> float:
 		"""Point the configuration at a copy of the shipped grammar inside the project (another path, fresh virtual mtime)."""
 		path = os.path.join(self.root, name)
@@ -241,7 +326,6 @@ class Project:
 
 	def run(self, force: bool = False, cache_enabled: bool | None = None, argv_extra: Sequence[str] = ()) -> RunResult:
 		"""One in-process command-line run (bin/transpile.py:__main__ without the catch-all `print(ErrorRender(e))`)."""
-		import time
 		from rogw.tranp.app.app import App
 		from rogw.tranp.bin.transpile import Args, TranspileApp
 		from rogw.tranp.cache.cache import CacheSetting
@@ -255,11 +339,14 @@ class Project:
 		try:
 			with AUDIT.watch(self.cache_dir) as events, contextlib.redirect_stdout(io.StringIO()):
 				try:
-					defs = TranspileApp.definitions(Args(list(argv)))
-					if cache_enabled is not None:
-						enabled = cache_enabled
-						defs = {**defs, to_fullyname(CacheSetting): lambda: CacheSetting(basedir=CACHE_REL, enabled=enabled)}
-					App(defs).run(TranspileApp.run)
+					with run_budget():
+						defs = TranspileApp.definitions(Args(list(argv)))
+						if cache_enabled is not None:
+							enabled = cache_enabled
+							defs = {**defs, to_fullyname(CacheSetting): lambda: CacheSetting(basedir=CACHE_REL, enabled=enabled)}
+						App(defs).run(TranspileApp.run)
+				except RunBudgetExceeded:
+					budget_hit(res, 'Project.run')
 				except Exception as e:  # noqa: BLE001 - the outcome class is the observation
 					res.ok = False
 					res.error = common.exc_enum(e)
